@@ -57,6 +57,9 @@ pub struct Acc {
 
 impl Acc {
     pub fn bucket(&mut self, name: &str, n: u64) {
+        if n == 0 {
+            return;
+        }
         if let Some(v) = self.buckets.get_mut(name) {
             *v += n;
         } else {
